@@ -208,14 +208,16 @@ func TestBoundaries(t *testing.T) {
 			sb.WriteString(strings.Repeat("b", rest))
 			for _, s := range []string{sb.String(), sb.String() + ".", "_" + sb.String()[1:], "é" + sb.String()[1:]} {
 				c := Case{S: vp.S(s)}
-				vp.Eval("c03.name")
 				n++
-				anyValid, err := checkName(s)
-				if err != nil {
-					vp.Fail(t, "c03.name", c, err)
+				if !vp.CheckCase(t, "c03.name", c, func(c Case) error {
+					anyValid, err := checkName(string(c.S))
+					if err == nil {
+						record(c, anyValid)
+					}
+					return err
+				}) {
 					return
 				}
-				record(c, anyValid)
 			}
 		}
 	}
@@ -225,13 +227,13 @@ func TestBoundaries(t *testing.T) {
 func TestDictionary(t *testing.T) {
 	for _, s := range gen.Dict {
 		c := Case{S: vp.S(s)}
-		vp.Eval("c03.name")
-		anyValid, err := checkName(s)
-		if err != nil {
-			vp.Fail(t, "c03.name", c, err)
-			continue
-		}
-		record(c, anyValid)
+		vp.CheckCase(t, "c03.name", c, func(c Case) error {
+			anyValid, err := checkName(string(c.S))
+			if err == nil {
+				record(c, anyValid)
+			}
+			return err
+		})
 	}
 }
 
@@ -244,13 +246,16 @@ func FuzzName(f *testing.F) {
 		f.Add(s)
 	}
 	f.Fuzz(func(t *testing.T, s string) {
-		if _, err := checkName(s); err != nil {
-			t.Fatal(err)
-		}
-		if len(s) < 300 {
-			if err := checkLabels(s); err != nil {
-				t.Fatal(err)
+		if err := vp.Guard(func() error {
+			if _, err := checkName(s); err != nil {
+				return err
 			}
+			if len(s) < 300 {
+				return checkLabels(s)
+			}
+			return nil
+		}); err != nil {
+			t.Fatal(err)
 		}
 	})
 }
